@@ -5,7 +5,10 @@ from ..facts import path_match, strip_generics
 from ..report import site_of
 
 L = "tough::"
-SER_PARSE = ("serde_json::de::from_slice", "serde_json::de::from_str", "serde_json::de::from_reader")
+# (a list: discover_parse_wrappers() appends crate-local one-line wrappers such as
+#  `fn parse_metadata<T>(data: &[u8]) -> Result<Signed<T>> { serde_json::from_slice(data).context(..) }`)
+SER_PARSE = ["serde_json::de::from_slice", "serde_json::de::from_str", "serde_json::de::from_reader"]
+_SER_PARSE_BASE = tuple(SER_PARSE)
 CMP_CALLS = {
     "core::cmp::PartialOrd::le": "le", "core::cmp::PartialOrd::lt": "lt",
     "core::cmp::PartialOrd::ge": "ge", "core::cmp::PartialOrd::gt": "gt",
@@ -867,3 +870,32 @@ def no_result_dropped(chk, prog, rule, prefixes):
                          site_of(t.sp))
     chk.ok(rule, "scope " + ",".join(prefixes), "no-result-dropped", detail="functions=%d result-typed values=%d" % (n_fn, n_val))
     return n_fn
+
+
+def discover_parse_wrappers(prog):
+    """crate-local functions that return nothing but serde_json::from_slice/from_str(<their first
+    parameter>) (possibly through .context(..)/map_err) count as parse sites themselves"""
+    del SER_PARSE[len(_SER_PARSE_BASE):]
+    found = []
+    for b in prog.bodies.values():
+        if "/.cargo/" in b.file or "/tests/" in b.file or b.kind == "Closure" or "{closure" in b.path:
+            continue
+        if not b.path.startswith("tough::") or len(b.blocks) > 40 or b.argc < 1:
+            continue
+        if not any(t.is_call_to(*_SER_PARSE_BASE) for _, t in b.calls()):
+            continue
+        ctx = ctx_of(prog, b.path)
+        ret = [o for o in ctx.origins.of_local(0) if not (o.kind == "call" and o.extra is not None and
+               o.extra.is_call_to("core::ops::try_trait::FromResidual::from_residual"))]
+        if not ret or not all(o.kind == "call" and o.extra is not None and o.extra.is_call_to(*_SER_PARSE_BASE) for o in ret):
+            continue
+        ok = True
+        for o in ret:
+            a0 = ctx.origins.of_operand(o.extra.args[0])
+            ok = ok and bool(a0) and all(x.kind == "param" and x.key[0] == 1 and not x.fields for x in a0)
+        if ok:
+            found.append(strip_generics(b.path))
+    for f in found:
+        if f not in SER_PARSE:
+            SER_PARSE.append(f)
+    return found
